@@ -145,7 +145,7 @@ structure CState where
   prevEscaped : Bool
   rbraceNum : Nat
   lbraceNum : Nat
-  deriving Repr
+  deriving Repr, DecidableEq
 
 /-- `while (rbrace > 0) { … }` of `SKIP_LOOP`: `(lane at which the container closed, rbrace_num, lbrace_num)` -/
 def rbraceLoop (lbrace : Mask) (last : Nat) : Nat → Mask → Nat → Nat → M (Option Nat × Nat × Nat)
@@ -220,7 +220,7 @@ def skipLiteral (d : List Nat) (pos : Nat) (token : Nat) : M (Bool × Nat) :=
 structure Cache where
   nbEnd : Nat
   nb : Mask
-  deriving Repr
+  deriving Repr, DecidableEq
 
 def Cache.init : Cache := ⟨0, List.replicate 64 false⟩
 
